@@ -287,6 +287,9 @@ pub fn run_session_cases(
         rep.cases += 1;
         let r = run_guarded(&cfg, &ops, env, rep);
         rep.count_n("ops", r.ops_run as u64);
+        if env.enabled & P_C16 != 0 {
+            rep.transcripts.push((idx, r.touched, r.transcript));
+        }
         rep.sample(ops.len(), || session_sample(&cfg, &ops));
         if let Some(w) = r.inconclusive {
             rep.inconclusive(w);
